@@ -278,6 +278,8 @@ from contracts.c03 import liesel_unit  # noqa: E402
 
 liesel_unit("pit", uid="C09.coherent_state.pit", prop="C09")  # a caching node class outside the Calc / Dist hierarchy (legacy PIT node)
 liesel_unit("optional", uid="C09.coherent_state.optional", prop="C09")
+liesel_unit("hier", uid="C09.coherent_state.hier.model_rebuilt_after_pop", prop="C09", prehistory="pop")  # variables with a history in an earlier model
+liesel_unit("weakdist", uid="C09.coherent_state.weakdist.model_rebuilt_from_copy", prop="C09", prehistory="copy")
 liesel_unit("direct", uid="C09.coherent_state.direct", prop="C09")
 liesel_unit("weakdist", uid="C09.coherent_state.weakdist", prop="C09")
 liesel_unit("transformed", uid="C09.coherent_state.transformed", prop="C09")  # a derived quantity whose definition depends on ANOTHER block's parameter
